@@ -4,6 +4,7 @@ import (
 	"bytes"
 	"fmt"
 	"io"
+	"math"
 	"strconv"
 	"strings"
 
@@ -356,6 +357,18 @@ func (s Emitter) formatMapLiteral(output io.Writer, mapLiteral cypher.MapLiteral
 	return nil
 }
 
+// formatFloatLiteral keeps a float literal a float when it is read back: an integral value gets a fraction
+// (1 -> 1.0), otherwise the text would lex as an integer literal (and overflow ParseInt beyond 2^63).
+func formatFloatLiteral(value float64) string {
+	formatted := strconv.FormatFloat(value, 'f', -1, 64)
+
+	if math.IsInf(value, 0) || math.IsNaN(value) || strings.ContainsRune(formatted, '.') {
+		return formatted
+	}
+
+	return formatted + ".0"
+}
+
 func (s Emitter) formatLiteral(output io.Writer, literal *cypher.Literal) error {
 	const literalNullToken = "null"
 
@@ -430,12 +443,12 @@ func (s Emitter) formatLiteral(output io.Writer, literal *cypher.Literal) error 
 		}
 
 	case float32:
-		if _, err := io.WriteString(output, strconv.FormatFloat(float64(typedLiteral), 'f', -1, 64)); err != nil {
+		if _, err := io.WriteString(output, formatFloatLiteral(float64(typedLiteral))); err != nil {
 			return err
 		}
 
 	case float64:
-		if _, err := io.WriteString(output, strconv.FormatFloat(typedLiteral, 'f', -1, 64)); err != nil {
+		if _, err := io.WriteString(output, formatFloatLiteral(typedLiteral)); err != nil {
 			return err
 		}
 
